@@ -185,12 +185,14 @@ def use (p : P) (s : S) : S × List REv :=
   let r := KeydownSkill.use (kdP p) (kdS s)
   (withKd s r.1, r.2)
 /-- the repaired `elapse`: copy, age the penalty, `elapse_keydown_trait`, and when the key-down ended in this
-    call the penalty is (re)started -/
+    call the penalty is started and aged by the time the call ran past the key-down end
+    (`max(0, -keydown.time_left)`; `time_left` is non-positive then) -/
 def elapse (p : P) (t : Int) (s : S) : S × List REv :=
   let s1 : S := { s with penaltyLasting := s.penaltyLasting.elapse t }
   let r := KeydownSkill.elapse (kdP p) t (kdS s1)
   let s2 := withKd s1 r.1
-  if keydownEnded r.2 then ({ s2 with penaltyLasting := s2.penaltyLasting.setTimeLeft p.homingPenaltyDuration }, r.2)
+  if keydownEnded r.2 then
+    ({ s2 with penaltyLasting := (s2.penaltyLasting.setTimeLeft p.homingPenaltyDuration).elapse (max 0 (-s2.keydown.timeLeft)) }, r.2)
   else (s2, r.2)
 /-- `stop_keydown_trait`, then the penalty starts when the key-down ended -/
 def stop (p : P) (s : S) : S × List REv :=
